@@ -1,15 +1,103 @@
-(* Proofs for the transaction pipeline monitors (C03, C05 node level, C06, C07, C11), part 4:
-   the monitor is silent on every valid history. *)
+(* Proofs for the transaction pipeline monitors (C03, C05 node level, C06, C07, C11, C12 vouching), part 6:
+   the monitor is silent on every valid history, reorganisations included. *)
 From V.lib Require Import Base.
-From V.model Require Import MemPool TxFlow TxFlowSpec.
-From V.proofs Require Import TxFlow_Base TxFlow_Inv.
+From V.model Require Import MemPool MemPoolSpec TxFlow TxFlowSpec.
+From V.proofs Require Import MemPool_Proofs TxFlow_Base TxFlow_Model TxFlow_Block TxFlow_Inv TxFlow_Tx TxFlow_Blk.
+
+Section Flow.
+Variable dl : Z.
+Variable all : list op.
+Hypothesis Hv : valid dl all.
+
+Local Notation Inv := (TxFlow_Inv.Inv dl all).
+Local Notation step_tx := (TxFlow_Tx.step_tx dl all Hv).
+Local Notation step_block := (TxFlow_Blk.step_block dl all Hv).
+Local Notation step_reorg := (TxFlow_Blk.step_reorg dl all Hv).
+Local Notation step_advance := (TxFlow_Inv.step_advance dl all).
+Local Notation step_setsync := (TxFlow_Inv.step_setsync dl all).
+Local Notation step_gettx := (TxFlow_Inv.step_gettx dl all).
+Local Notation step_unconf := (TxFlow_Inv.step_unconf dl all).
+Local Notation step_blocktxs := (TxFlow_Inv.step_blocktxs dl all).
+Local Notation step_restart := (TxFlow_Inv.step_restart dl all).
+Local Notation step_inv := (TxFlow_Inv.step_inv dl all).
+Local Notation step_delay := (TxFlow_Inv.step_delay dl all).
+
+(* every operation of the history *)
+Lemma step_sim Rs n m o : Inv Rs n m -> o ∈ all -> op_ok n Rs o = true ->
+  exists m', monitor_step dl m o (snd (step n o)) = (0, m') /\ Inv (next_R n Rs o) (fst (step n o)) m'.
+Proof.
+  intros HI Ho Hok. destruct o as [t body rel src|t trusted|b prev txs valid|b prev txs valid| |dt|b| |t| |h].
+  - apply step_tx; assumption.
+  - cbn [step next_R]. pose proof (step_inv Rs n m t trusted HI) as H. cbv zeta in H. exact H.
+  - cbn [next_R]. apply step_block; assumption.
+  - cbn [next_R]. apply step_reorg; assumption.
+  - cbn [step next_R]. pose proof (step_delay Rs n m HI) as H. destruct (delay_check n) as [n1 evs]. exact H.
+  - cbn [step fst snd next_R]. apply step_advance; [exact HI|apply (v_adv _ _ Hv), Ho].
+  - cbn [step fst snd next_R]. apply step_setsync. exact HI.
+  - cbn [step fst snd next_R]. apply step_restart. exact HI.
+  - cbn [step fst snd next_R]. apply step_gettx. exact HI.
+  - cbn [step fst snd next_R]. apply step_unconf. exact HI.
+  - cbn [step fst snd next_R]. apply step_blocktxs. exact HI.
+Qed.
+
+Lemma Inv_init : Inv [] (n_init dl) ms_init.
+Proof.
+  split.
+  - split; cbn.
+    + intros b Hb. apply elem_of_list_singleton in Hb. lia.
+    + intros t. rewrite lookup_empty. split; [intros H; apply elem_of_nil in H; destruct H|].
+      intros (? & ?). discriminate.
+    + intros t s H. rewrite lookup_empty in H. discriminate.
+    + intros t. split; [intros H; apply elem_of_nil in H; destruct H|].
+      intros (s & H & _). rewrite lookup_empty in H. discriminate.
+    + intros t H. apply elem_of_nil in H. destruct H.
+    + intros t (s & H). rewrite lookup_empty in H. discriminate.
+    + intros t s body rel H. rewrite lookup_empty in H. discriminate.
+    + intros t. rewrite lookup_empty. reflexivity.
+    + intros t s b H. rewrite lookup_empty in H. discriminate.
+    + intros t s b H. rewrite lookup_empty in H. discriminate.
+  - split; cbn; try reflexivity.
+    + apply R_init.
+    + intros t b H. apply elem_of_nil in H. destruct H.
+    + intros t b H. apply elem_of_nil in H. destruct H.
+    + intros t. rewrite lookup_empty. split; [intros H; apply elem_of_nil in H; destruct H|].
+      intros (? & ?). discriminate.
+    + intros t (? & H). rewrite lookup_empty in H. discriminate.
+    + intros t s H. rewrite lookup_empty in H. discriminate.
+    + intros t u H. rewrite lookup_empty in H. discriminate.
+    + intros t u H. apply elem_of_nil in H. destruct H.
+    + intros t u H. rewrite lookup_empty in H. discriminate.
+    + intros t u s H. rewrite lookup_empty in H. discriminate.
+    + intros t u H. rewrite lookup_empty in H. discriminate.
+    + intros t H. unfold is_trusted in H. cbn in H. rewrite lookup_empty in H. discriminate.
+    + intros t H. apply elem_of_nil in H. destruct H.
+    + intros t H. apply elem_of_nil in H. destruct H.
+    + intros t u H. rewrite lookup_empty in H. discriminate.
+    + intros t H. apply elem_of_nil in H. destruct H.
+    + intros t H. apply elem_of_nil in H. destruct H.
+    + intros t b s H. apply elem_of_nil in H. destruct H.
+    + intros t b s H. apply elem_of_nil in H. destruct H.
+Qed.
+
+Lemma monitor_silent_from ops' : forall n m i Rs,
+  Inv Rs n m -> (forall o, o ∈ ops' -> o ∈ all) -> hyp_from n Rs ops' = true ->
+  monitor_from dl m i ops' (run_from n ops') = None.
+Proof.
+  induction ops' as [|o ops' IH]; intros n m i Rs HI Hsub Hhyp; [reflexivity|].
+  cbn [run_from monitor_from]. cbn [hyp_from] in Hhyp. apply andb_true_iff in Hhyp. destruct Hhyp as [Hok Hhyp].
+  destruct (step_sim Rs n m o HI) as (m' & Hm & HI'); [apply Hsub; left|exact Hok|].
+  destruct (step n o) as [n1 ob]. cbn [fst snd] in Hm, HI', Hhyp. rewrite Hm. cbn [Z.eqb negb].
+  apply (IH n1 m' (i + 1) (next_R n Rs o)); [exact HI'| |exact Hhyp]. intros o' Ho'. apply Hsub. right. exact Ho'.
+Qed.
+
+End Flow.
 
 Theorem txflow_monitor_silent :
   forall (delay : Z) (ops : list op),
     flow_valid delay ops = true -> txflow_monitor delay ops (run delay ops) = None.
 Proof.
-  intros delay ops H. apply flow_valid_valid in H. unfold txflow_monitor, run.
-  apply (monitor_silent_from delay ops H ops); [apply Inv_init|auto].
+  intros delay ops H. apply flow_valid_valid in H. destruct H as [Hv Hh]. unfold txflow_monitor, run.
+  apply (monitor_silent_from delay ops Hv ops (n_init delay) ms_init 0 []); [apply Inv_init|auto|exact Hh].
 Qed.
 
 Lemma txflow_never_objects_any :
